@@ -66,7 +66,8 @@ def run(ctx, res):
         elif k == 1:
             cases.append(("col_comment", "CREATE TABLE t (a int COMMENT %s, b int);" % L, L, lambda v: v[0]["columns"][0]["comment"]))
         elif k == 2:
-            cases.append(("check_operand", "CREATE TABLE t (a text CHECK (a <> %s), b int);" % L, "a <> " + L, lambda v: v[0]["columns"][0]["check"]))
+            tail = rng.choice(["", "", " NOT NULL", " DEFAULT 'd'", " NULL UNIQUE", " NOT NULL DEFAULT 1"])      # options after the CHECK
+            cases.append(("check_operand", "CREATE TABLE t (a text CHECK (a <> %s)%s, b int);" % (L, tail), "a <> " + L, lambda v: v[0]["columns"][0]["check"]))
         elif k == 3:
             Ls = [lit(rng) for _ in range(rng.randint(1, 4))]
             cases.append(("check_in", "CREATE TABLE t (a text, CONSTRAINT ck CHECK (a IN (%s)));" % ", ".join(Ls), Ls,
